@@ -1,7 +1,7 @@
 """tools/scen_debug.py <scenario> [...]: run scripted scenarios on the implementation under the monitors, compare with the
 model, print monitor records and diagnose the first divergence."""
 import os, sys
-sys.path.insert(0, '/verif'); sys.path.insert(0, os.environ.get('VERIF_REPO', '/repo'))
+sys.path.insert(0, '/verif'); sys.path.insert(0, (os.environ.get('VERIF_REPO') or '/repo'))
 from harness import raft_corr as RC, raft_scenarios as SC, raft_debug as DBG
 from harness.raft_monitor import Monitor
 from vlib import coq
